@@ -16,7 +16,7 @@ chk("C15", "exploration",
     "Complete enumeration of the codec's group-local input space: every 3-byte group, every line fill 0..45, every total length "
     "0..4096 (thorough 0..65536 and 2^k+-1 to 1 MiB) compared with a reference encoder, perl pack('u') and perl unpack('u'); every string of "
     "length <=6 (thorough <=7) over an 11-symbol decoder alphabet plus CR-LF/blank-line/over-long/bad-character rewrites for totality, "
-    "located errors and purity of src/dst.",
+    "located errors and purity of src/dst. The decoder's error must point at the first invalid line (and character), as computed by a reference validator.",
     "perl 5.36 pack/unpack is the compatibility reference; contents at large sizes are three fixed patterns (the codec is group-local, and all groups are covered).",
     "DESIGN.md 5 C15")
 
@@ -63,7 +63,7 @@ chk("C11", "model_checking",
     "explicit-state BFS over the real broker with a capturing slog handler and a real slog JSON handler; exhaustive payload enumeration",
     _BW + "C11: histories of accepted, refused (every reason) and ended streams with lines delivered/failed and chunks shown/dropped; oracle per step: Shell I/O records in bijection and order "
     "with delivered lines and displayed chunks (also with an unbuffered operator channel), one connect and one disconnect record per accepted stream, one error-level record naming the reason "
-    "per refusal; every record also goes through slog's JSON handler and must come out as one parsable line carrying the JSON image of the data (all strings of <=2 (thorough 3) JSON-hostile symbols).",
+    "per refusal; every record also goes through slog's JSON handler and must come out as one parsable line carrying the JSON image of the data (all strings of <=2 (thorough 3) JSON-hostile symbols). Also: no record may be written after Broker.Do has returned (the capturing handler yields before storing, records and Do's return carry a global sequence number); one end-to-end session of the real binary with -log, the file parsed line by line.",
     _BWNOTE + " The -log file of the real binary is the same handler writing to a file; the file itself is not exercised here.",
     "DESIGN.md 4, 5 C11")
 
@@ -88,7 +88,7 @@ chk("C16", "exploration",
     "One program per byte value 1..255 in both quote styles, 135 consecutive script lengths (all residues mod 45 and 3) in two shapes, every sequence of <=2 (thorough 3) statements "
     "over an 11-statement grammar x 6 leading-comment shapes x argument/stdin settings, 12 argument vectors, sizes to 64 KiB, empty and whitespace-only scripts, each under dash and bash; "
     "dynamic oracle: same stdout and exit status (die: failure status + message); static oracle: the function body, with the s/b substitution reversed and decoded by a reference "
-    "uudecoder, equals the statement's program text, kept comments and function name.",
+    "uudecoder, equals the statement's program text, kept comments and function name. The grammar includes literals and here-docs with trailing blanks and lines that merely look like __END__ / __DATA__.",
     "'Every Perl program' is not enumerable: the grammar covers the constructs the quantifier names. $0/__FILE__/__DATA__ excluded as the statement says. Known finding: the empty script (see known_findings.json).",
     "DESIGN.md 5 C16")
 
@@ -96,7 +96,7 @@ chk("C10", "exploration",
     "bounded exhaustive enumeration of printf-significant token strings in every client-controlled position of every reporting handler, over real TLS against the in-process server",
     "Every string of <=3 (thorough 4) tokens over {%, %%, s, d, v, q, x, 20, -, +, #, *, [1], !, a, %20, %25, %73, %2B} as file path, file query, c2 parameter (valid and invalid escapes), c2 header, "
     "another /c parameter, /i ID and /o ID (refused and attaching), Host; the template-missing/unparsable/exec-failure and files-directory-missing error branches; client addresses with a percent "
-    "sign (zoned link-local IPv6) when the host has one. Oracle: the notice about the request carries the text as data and no formatter artefact the client did not send.",
+    "sign (zoned link-local IPv6) when the host has one. Oracle: the notice about the request carries the text as data and no formatter artefact the client did not send. Also the last seam: %-bearing notices and chunks through the real opshell.Shell on a pty must reach the terminal verbatim.",
     "Only requests net/http lets through to a handler can be explored. The 'every call site in the tree' clause of the quantifier is not decided by this technique (a static scan is another family); only sites reached by requests are exercised.",
     "DESIGN.md 5 C10")
 
@@ -106,21 +106,21 @@ chk("C05", "exploration",
     "exhaustive product of start-up configurations and restart/overlap histories, pin recomputed from the wire certificate, real curl --pinnedpubkey",
     _HW + "C05: key source {none, cache created, cache reused over 3 starts} x 6 listen-address forms x 6 callback-address sets x files x template; every sha256// value in the start-up notices, "
     "the help re-printed after a shell died and two /c bodies equals base64(SHA-256(SPKI)) of the leaf seen in two handshakes; one-liners name the bound port unless the user gave one; real curl "
-    "accepts the advertised pin and refuses a one-character variant; an instance keeps serving what it advertised while its cache file is deleted/re-created/rewritten by another instance; four instances started together on a fresh cache path.",
+    "accepts the advertised pin and refuses a one-character variant; an instance keeps serving what it advertised while its cache file is deleted/re-created/rewritten by another instance; four instances started together on a fresh cache path. Also: hand-made caches (a certificate section holding a chain; a certificate whose validity has passed) over three starts, and the real binary on a pty (fingerprints and ports as printed on the terminal, restart on the same cache).",
     "Key values are not enumerable; the oracle is relational per generated key. A start the program refuses is outside this property.",
     "DESIGN.md 5 C05")
 chk("C07", "exploration",
     "exhaustive product of address sources, exhaustive template-edit histories to a depth, scripts executed by /bin/sh with real curl",
     _HW + "C07: c2 parameter (query and POST form; plain, URL-encoded, IPv6 literal) x c2 header x Host (absent/HTTP/1.0, name, name:port, two IDN names via absolute-form target) x SNI on IPv4 and IPv6 listeners against a 5-line reference precedence function; "
     "both curl lines carry the wire pin, the same address and the same fresh [0-9a-z]+ ID (distinct over 500-2000 scripts); every history of <=4 (thorough 5) template-file operations "
-    "{T1, T2, unparsable, failing at execution, remove} with two requests after each; the script piped to /bin/sh for Host / c2 param / c2 header [::1] / SNI sources x default and custom template with a marker command round trip.",
+    "{T1, T2, unparsable, failing at execution, remove} with two requests after each; the script piped to /bin/sh for Host / c2 param / c2 header [::1] / SNI sources x default and custom template with a marker command round trip. Also IPv6-literal Host values and 16 x 1 500 (thorough 6 000) concurrent /c requests whose IDs must be pairwise distinct (a sampling complement).",
     "Addresses that do not route back to this host are checked textually only.",
     "DESIGN.md 5 C07")
 chk("C09", "exploration",
     "bounded exhaustive enumeration of raw request targets against real directory trees with canaries outside, all three configurations",
     _HW + "C09: every target of <=3 segments (thorough: larger segment set, 4 segments over the core set) over dot-segments, encoded/double-encoded dots, encoded slashes, backslashes, NUL, empty segments, "
     "shell-endpoint names, canary names and a 4 KiB segment x 3 prefixes x 3 suffixes, 301s followed once, against 3 trees (flat, nested, files named c/io/i/x/o/x) + single-file + unset; oracle: no canary content ever, "
-    "no outside listing, 200 bodies are files/listings of the tree (single file: exactly that file; unset: no non-shell 2xx, file handler never runs), shell endpoints keep acting as such (by their notices), one 'File requested' notice per file response.",
+    "no outside listing, 200 bodies are files/listings of the tree (single file: exactly that file; unset: no non-shell 2xx, file handler never runs), shell endpoints keep acting as such (by their notices), one 'File requested' notice per file response. Also: siblings whose names begin with the tree's name reached through every spelling of .. that survives the mux; shell endpoints with POST/PUT/DELETE/OPTIONS; 40 file requests against an operator queue of 8 (a stalled terminal) must all be reported.",
     "Symlinks inside the tree are outside the quantifier. net/http's own 400/301 answers are only checked for leaking content.",
     "DESIGN.md 5 C09")
 
@@ -136,7 +136,7 @@ chk("C14", "exploration",
     "exhaustive grid over output size x descriptor x owned consumer/exit order x input x exit status against the real CmdShell and a helper child, child state read from /proc",
     "Real CmdShell around this binary as child writing position-stamped bytes: sizes {0, 8, 4096, 32768, 32776, 65536, 65544, 98304, 200000} x {stdout, stderr, both} x bytes read before the child is gone or "
     "blocked in write {0, 8, 4096, 32768, N-8, N} x input {empty, 1 KiB / 100 KiB echoed through the child, never closed} x exit status {0, 3}, consumers pausing 0.3-1.2 s after the child is gone, inputs to 1 MiB; "
-    "oracle: every stream arrives complete and in per-stream order before the terminal condition, input unchanged, nil for exit 0, error for exit 3.",
+    "oracle: every stream arrives complete and in per-stream order before the terminal condition, input unchanged, nil for exit 0, error for exit 3. Also children that die by SIGKILL / SIGTERM (an unsuccessful exit), and a 30 s watchdog on the end of the output stream while the input is still open.",
     "Kernel pipe semantics trusted; the schedule axis is one owned choice plus a pause, not every interleaving of the copy goroutines.",
     "DESIGN.md 5 C14")
 
@@ -145,7 +145,7 @@ chk("C08", "fault_enumeration",
     "lib/sstls is built with its os import rewritten (overlay) to a logging/crash-injecting shim. (a) every crash point of the real GetCertificate write path: before each mutating call and after every byte count 0..n (~815) of "
     "WriteFile, each followed by a recovery run on the same directory and a real in-memory TLS handshake; (b) every byte offset of a complete cache file x 6 replacements (~4800), by region; (c) every history of <=4 (thorough 6) "
     "operations over {start, start without cache, delete cache, torn write at 3 lengths} against a key-identity model; (d) missing-directory nesting 0..4 x umask {0, 022, 077} with modes checked after every step. "
-    "Oracle: recovery fails or serves the key that was being saved (never another, never an unusable pair), an existing file is never rewritten, file 0600 / directories 0700 at every point.",
+    "Oracle: recovery fails or serves the key that was being saved (never another, never an unusable pair), an existing file is never rewritten, file 0600 / directories 0700 at every point. Damage classes: 16 (every single-bit flip of the low six bits and the top bit, +1, -1, six fixed characters); restarts of caches whose certificate lives 1 ns / 1 s / 1 h.",
     "A crash stops the process at a call boundary or inside WriteFile after k bytes, with what was written durable; only lib/sstls's own os calls are intercepted (txtar reads through the real os).",
     "DESIGN.md 5 C08")
 
@@ -153,7 +153,7 @@ chk("C20", "fault_enumeration",
     "exhaustive enumeration of single and paired start-up faults x informational flag x tty, and of self-initiated exits, on the real binary with termios compared",
     "The real curlrevshell binary, as session leader on a fresh pty or without any controlling terminal: every single fault of {listen address: bad syntax / port bound / not local; cache: empty / cut before the key / garbage / unwritable path; "
     "log path: parent missing / parent is a file; Ctrl+I source missing} and every pair from different resources x {no flag, -print-default-template, -print-ctrl-i, -h} x {pty, no tty}; every self-initiated exit (Ctrl+C, Ctrl+D, -one-shell completion; idle and with a shell attached over real TLS). "
-    "Oracle: no panic / stack trace, non-zero status with a message naming a cause (or the requested output with status 0), exit 0 + 'Goodbye.' for self exits, termios after exit equal to termios before start.",
+    "Oracle: no panic / stack trace, non-zero status with a message naming a cause (or the requested output with status 0), exit 0 + 'Goodbye.' for self exits, termios after exit equal to termios before start. Cache faults include a directory that exists but takes no files.",
     "Which of two faults is named and whether an informational flag wins over a fault is not fixed by the statement: either accepted. Root ignores file modes, so 'unwritable' is a parent that is a regular file.",
     "DESIGN.md 5 C20")
 
@@ -161,7 +161,7 @@ chk("C12", "exploration",
     "bounded exhaustive enumeration of -one-shell session histories of the real binary on a pty with real TLS clients",
     "The real binary with -one-shell: pre-attempt sequences (length <=1 quick, <=2 thorough) over {half-attached input that leaves, half-attached output that leaves, refused output beside a held input} x arrival {/i then /o, /o then /i, /io} "
     "x ending {input closed, output closed, both, output EOF} x traffic in flight x exit trigger {line, Ctrl+D}; oracle: TCP connects succeed before the shell is fully attached (also while half attached) and are refused within 20 s after the ready notice; "
-    "a marker goes both ways right after the close and again 2.5 s later; nothing in flight is lost; no one-liners after the shell is gone; exit 0 with Goodbye after at most one more line; termios restored.",
+    "a marker goes both ways right after the close and again 2.5 s later; nothing in flight is lost; no one-liners after the shell is gone; exit 0 with Goodbye after at most one more line; termios restored. Also two in-process scenarios: a stalled operator channel at the moment the shell becomes ready (Server.Do must still end with the expected closure), and a broker busy delivering an earlier event when the server starts (the first shell's connected event must not be lost).",
     "'shortly' = refused at some poll within 20 s; the operator's line is entered 3 s after the shell is gone (net/http's graceful shutdown polls at up to 500 ms, a line typed inside that window is consumed first).",
     "DESIGN.md 5 C12")
 
